@@ -1,0 +1,20 @@
+//go:build verif
+// +build verif
+
+package fixedtree
+
+// Verification hooks: the index arithmetic of the tree is unexported.
+
+func VerifIndexHeight(index uint64) uint64 { return indexHeight(index) }
+
+func VerifChildren(size int, index uint64) (c [2]uint64, ok bool) {
+	c, err := children(size, index)
+
+	return c, err == nil
+}
+
+func VerifParent(index uint64) (uint64, bool) {
+	p, err := parent(index)
+
+	return p, err == nil
+}
